@@ -26,20 +26,22 @@ def user_fc(x):
     return (1 + 2j) * x * x / 4 + 1j * x - 1j
 
 
-def functions(in_log_domain, nonsingular):
+def functions(in_log_domain, nonsingular, in_pow_domain=None):
     """(name, scalar function, caller) triples applicable to a spectrum."""
     import cola
     out = [("exp", np.exp, lambda A, alg: cola.linalg.exp(A, alg)),
            ("apply_unary", user_f, lambda A, alg: cola.linalg.apply_unary(user_f, A, alg)),
            # a user function with non-real Taylor coefficients: complex-valued on a real spectrum
            ("apply_unary_cplx", user_fc, lambda A, alg: cola.linalg.apply_unary(user_fc, A, alg))]
+    in_pow_domain = in_log_domain if in_pow_domain is None else in_pow_domain
     if in_log_domain:
-        out += [("log", np.log, lambda A, alg: cola.linalg.log(A, alg)),
-                ("sqrt", np.sqrt, lambda A, alg: cola.linalg.sqrt(A, alg)),
+        out += [("log", np.log, lambda A, alg: cola.linalg.log(A, alg))]
+    if in_pow_domain:
+        out += [("sqrt", np.sqrt, lambda A, alg: cola.linalg.sqrt(A, alg)),
                 ("isqrt", lambda x: 1 / np.sqrt(x), lambda A, alg: cola.linalg.isqrt(A, alg))]
     for a in EXPONENTS:
         integer = float(a).is_integer()
-        if (integer and (a >= 0 or nonsingular)) or (not integer and in_log_domain):
+        if (integer and (a >= 0 or nonsingular)) or (not integer and in_pow_domain):
             out.append((f"pow{a}", (lambda x, a=a: np.power(x.astype(complex) if hasattr(x, "astype") else complex(x), a)),
                         (lambda A, alg, a=a: cola.linalg.pow(A, a, alg))))
     return out
@@ -122,16 +124,19 @@ def observe(c):
                 tot += float(np.max(np.abs(np.angle(w))))
             return tot < np.pi - 0.2
         return True
+    # (only the POWER rules work factor by factor on Kronecker products at HEAD; log has no such rule, so its domain is
+    # that of the whole matrix)
+    in_pow_domain = in_log_domain
     if in_log_domain and "Kronecker" in opsfam.kinds_in(t) and not factorwise_ok(t):
-        in_log_domain = False
-        at["in_log_domain"] = False
+        in_pow_domain = False
+        at["in_pow_domain"] = False
     Dc = Dn.astype(np.complex128)
     at["normal"] = bool(np.allclose(Dc @ Dc.conj().T, Dc.conj().T @ Dc, rtol=0, atol=1e-9))
     with warnings.catch_warnings():
         warnings.simplefilter("ignore")
         with np.errstate(all="ignore"):
             for aname, alg in algs_for(A, at["hermitian"], n, single):
-                for fname, f, call in functions(in_log_domain, nonsingular):
+                for fname, f, call in functions(in_log_domain, nonsingular, in_pow_domain):
                     extra = dict(alg=aname, fn=fname)
                     F = spectralfam.f_of_A(spec, f)
                     if not np.all(np.isfinite(F)) or np.max(np.abs(F)) > 1e150:
@@ -179,7 +184,7 @@ def observe(c):
                     V("zero_operand", f"exp(A, {aname}) @ 0 raised {type(e).__name__}: {str(e)[:100]}", alg=aname,
                       fn="exp", **common.exc_info(e))
                 # sqrt applied twice acts as A
-                if in_log_domain:
+                if in_pow_domain:
                     try:
                         S = cola.linalg.sqrt(A, alg)
                         g = np.asarray(S @ (S @ v))
